@@ -54,6 +54,8 @@ def generate(rng, tier):
         textable = all(s[0] != 'P' or (isinstance(s[1], str) and s[1] not in ('*', '**', '')) for s in steps)
         out.append({'cells': cells, 'target': target, 'steps': steps,
                     'spelling': 'text' if (textable and rng.random() < 0.5) else 'path'})
+        if out[-1]['spelling'] == 'text' and rng.random() < 0.3:
+            out[-1]['full_cache'] = True       # the text is parsed while the path memo is full (it is then not stored): same meaning
     import props.c11 as c11
     for kind in ('dict', 'obj'):
         for pos in range(4):
@@ -222,10 +224,20 @@ def run_impl(case):
         return run_broadcast(case)
     hr = HeapRealiser(case['cells'])
     target = hr.val(case['target'])
+    P = glom.core.Path
+    saved = P._MAX_CACHE
     try:
+        if case.get('full_cache'):
+            # a memo that is over its limit: one stored text and a limit of zero (the limit is a class attribute; the state is the
+            # one a long-running process reaches after 10001 distinct path texts)
+            P._CACHE[True].clear()
+            P._MAX_CACHE = 0
+            P.from_text('filler')
         res = glom.glom(target, _spec(case))
     except Exception as e:
         return exc_outcome(e)
+    finally:
+        P._MAX_CACHE = saved
     return {'ok': _enc(hr, res)}
 
 
